@@ -251,6 +251,61 @@ fn locate<T: Cur>(item: &T, sec: Sec) -> Result<usize, String> {
     Err(format!("cursor at offset {:?} designates no record of the section", item.offset()))
 }
 
+/// The cursor was found not to designate its record any more (a C08 matter, already recorded). The step that
+/// follows in the program is still carried out when it is a TTL / address setter or a deletion, and its effect
+/// on the message is judged on its own: a setter that now changes something else than its field of its record
+/// is C09's concern as well.
+fn after_lost_cursor<T: Cur>(it: &mut T, sec: Sec, i: usize, step: Option<&CurOp>, out: &mut Verdicts) {
+    let step = match step {
+        Some(s) if sec != Sec::Question => s,
+        _ => return,
+    };
+    let before = snap(it.parsed_packet());
+    let mb = match msg_of(&before) {
+        Ok(m) => m,
+        Err(_) => return,
+    };
+    if i >= mb.sec(sec).len() {
+        return;
+    }
+    let mut exp = mb.clone();
+    let (what, real): (&str, Result<Result<(), String>, String>) = match step {
+        CurOp::SetTtl(val) => {
+            exp.sec_mut(sec)[i].ttl = *val;
+            ("set_rr_ttl", caught(|| {
+                it.set_ttl(*val);
+                Ok(())
+            }))
+        }
+        CurOp::SetIp(val) => {
+            let bytes = ip_bytes(*val);
+            let rec = &mb.sec(sec)[i];
+            if !((rec.rtype == T_A && bytes.len() == 4) || (rec.rtype == T_AAAA && bytes.len() == 16)) {
+                return;
+            }
+            exp.sec_mut(sec)[i].rdata = Rdata::Opaque(bytes.clone());
+            let ip: IpAddr = if bytes.len() == 4 { IpAddr::from(<[u8; 4]>::try_from(&bytes[..]).unwrap()) } else { IpAddr::from(<[u8; 16]>::try_from(&bytes[..]).unwrap()) };
+            ("set_rr_ip", caught(|| it.set_ip(&ip).unwrap_or(Ok(()))))
+        }
+        CurOp::Delete => {
+            exp.sec_mut(sec).remove(i);
+            ("delete", caught(|| it.delete().map_err(|e| e.to_string())))
+        }
+        _ => return,
+    };
+    out.steps += 1;
+    let name = format!("{}({}):after_lost_cursor", what, sec_name(sec));
+    match real {
+        Err(p) => out.c09 = v(format!("{}:panic:{}", name, panic_site(&p)), format!("{} panicked instead of performing its effect: {}", what, p)),
+        Ok(Err(e)) => out.c09 = v(format!("{}:unexpected_error", name), format!("{} failed on a live record: {}", what, e)),
+        Ok(Ok(())) => match msg_of(&snap(it.parsed_packet())) {
+            Ok(ma) if ma == exp => {}
+            Ok(ma) => out.c09 = v(format!("{}:wrong_effect", name), format!("{}: expected vs actual message: {}", what, diff(&exp, &ma))),
+            Err(e) => out.c09 = v(format!("{}:wrong_effect", name), format!("{}: bytes no longer decode ({})", what, e)),
+        },
+    }
+}
+
 fn next_index(m: &Msg, sec: Sec, from: usize, incl_opt: bool) -> Option<usize> {
     if sec == Sec::Question {
         return None;
@@ -318,7 +373,7 @@ fn run_program<T: Cur>(mut it: Option<T>, sec: Sec, incl_opt: bool, index: usize
         };
         format!("{}({})", base, sec_name(sec))
     };
-    for c in prog {
+    for (k, c) in prog.iter().enumerate() {
         let item_ref = match it.as_ref() {
             Some(i) => i,
             None => break,
@@ -375,6 +430,7 @@ fn run_program<T: Cur>(mut it: Option<T>, sec: Sec, incl_opt: bool, index: usize
                     if let Err(e) = caught(|| designates(it.as_ref().unwrap(), sec, cur.unwrap())).unwrap_or_else(|p| Err(format!("panic: {}", p))) {
                         out.c08 = v(format!("{}:cursor_lost", nm_), format!("after a successful set_raw_name the iterator no longer designates its record: {}", e));
                         out.next = None;
+                        after_lost_cursor(it.as_mut().unwrap(), sec, cur.unwrap(), prog.get(k + 1), out);
                         return;
                     }
                 }
@@ -492,6 +548,7 @@ fn run_program<T: Cur>(mut it: Option<T>, sec: Sec, incl_opt: bool, index: usize
                 if let Err(e) = caught(|| designates(it.as_ref().unwrap(), sec, i)).unwrap_or_else(|p| Err(format!("panic: {}", p))) {
                     out.c08 = v(format!("{}:cursor_lost", nm_), format!("after in-place decompression the iterator no longer designates its record: {}", e));
                     out.next = None;
+                    after_lost_cursor(it.as_mut().unwrap(), sec, i, prog.get(k + 1), out);
                     return;
                 }
             }
